@@ -641,9 +641,9 @@ LEVEL_TEXT = ("Machine-checked (Coq) theorems over an executable model of the mo
               "extracted model-free spec evaluated on the implementation's observations.")
 LEVEL_NOTE = ("Trusted: Coq kernel, extraction, harness and generators. Modelled not verified: the C++ itself. Theorems cover canonical scenarios "
               "(configuration, expectations, calls, final mock().checkExpectations()) over mock() and named scopes with input/output "
-              "parameters, onObject in any position and return values; the multiset/sequence verdict clause is proved modulo the per-scope "
-              "counting hypothesis verdict_agrees (checked on every generated scenario by the extracted spec). ignoreOtherParameters, "
-              "object-less expectations called on an object, intermediate check/clear/expectedCallsLeft, enable/disable: model = "
-              "implementation agreement only. Not modelled: custom comparators/copiers, tracing, nested scopes.")
+              "parameters, onObject in any position and return values, incl. the multiset / strict-sequence verdict (counting theorem) in "
+              "every scope. ignoreOtherParameters, object-less expectations called on an object, a parameter name or object passed twice, "
+              "intermediate check/clear/expectedCallsLeft, enable/disable: model = implementation agreement only. Not modelled: custom "
+              "comparators/copiers, tracing, nested scopes.")
 TECHNIQUE = "Coq proof over hand-written executable model + extracted-model/implementation correspondence check (differential, permutations + mutations)"
 READY = True
